@@ -101,31 +101,58 @@ type countWriter struct {
 
 func (w *countWriter) Write(p []byte) (int, error) { w.calls++; return w.buf.Write(p) }
 
-// c02Fragment judges Statement.Render of a statement built by mk.
+// c02Fragment judges the fragment render entry points of a statement built by mk:
+// Statement.Render, Statement.RenderWithFile with a default and with a NoFormat File, and
+// Group.RenderWithFile with a NoFormat File (a fragment is always formatted, whatever the File).
 func c02Fragment(mk func() (*jen.Statement, any)) (kind, msg string) {
-	s, p := mk()
-	if p != nil || s == nil {
-		return "build-panic", ""
+	type entry struct {
+		name string
+		run  func(s *jen.Statement, w *countWriter) error
 	}
-	w := &countWriter{}
-	o := jh.Catch(func() (string, error) { err := s.Render(w); return "", err })
-	if o.Panic != nil {
-		return "", fmt.Sprintf("Statement.Render panics: %v", o.Panic)
+	nf := func() *jen.File { f := jen.NewFile("p"); f.NoFormat = true; return f }
+	entries := []entry{
+		{"Statement.Render", func(s *jen.Statement, w *countWriter) error { return s.Render(w) }},
+		{"Statement.RenderWithFile(NoFormat File)", func(s *jen.Statement, w *countWriter) error { return s.RenderWithFile(w, nf()) }},
+		{"Group.RenderWithFile(NoFormat File)", func(s *jen.Statement, w *countWriter) error {
+			var grp *jen.Group
+			jen.CustomFunc(jen.Options{}, func(g *jen.Group) { g.Add(s); grp = g })
+			return grp.RenderWithFile(w, nf())
+		}},
 	}
-	if o.Err != nil {
-		if w.calls != 0 {
-			return "", "Statement.Render returned an error after writing"
+	kinds := map[string]bool{}
+	for _, e := range entries {
+		s, p := mk()
+		if p != nil || s == nil {
+			return "build-panic", ""
 		}
-		return "error", ""
-	}
-	out := w.buf.String()
-	if !jh.ParsesAsFragment(out) {
-		// a fragment that is a complete file by itself (package clause) is tolerated: see DESIGN.md C02
-		if _, err := parser.ParseFile(token.NewFileSet(), "", out, 0); err != nil {
-			return "", fmt.Sprintf("Statement.Render returned nil but the output parses neither as declarations nor as statements: %q", jh.Short(out, 400))
+		w := &countWriter{}
+		o := jh.Catch(func() (string, error) { return "", e.run(s, w) })
+		if o.Panic != nil {
+			return "", fmt.Sprintf("%s panics: %v", e.name, o.Panic)
+		}
+		if o.Err != nil {
+			if w.calls != 0 {
+				return "", e.name + " returned an error after writing"
+			}
+			kinds["error"] = true
+			continue
+		}
+		kinds["valid"] = true
+		out := w.buf.String()
+		if !jh.ParsesAsFragment(out) {
+			// a fragment that is a complete file by itself (package clause) is tolerated: see DESIGN.md C02
+			if _, err := parser.ParseFile(token.NewFileSet(), "", out, 0); err != nil {
+				return "", fmt.Sprintf("%s returned nil but the output parses neither as declarations nor as statements: %q", e.name, jh.Short(out, 400))
+			}
 		}
 	}
-	return "valid", ""
+	if kinds["valid"] && kinds["error"] {
+		return "", "the fragment render entry points disagree on whether the composition is valid"
+	}
+	if kinds["valid"] {
+		return "valid", ""
+	}
+	return "error", ""
 }
 
 type c02Case struct {
@@ -277,7 +304,7 @@ func runC02(r *ev.Recorder) {
 		"every chain A(..).B(..) and every nesting A(.. B(..) ..) of two constructs (quick: B with its first four argument combinations; thorough: all) - each as the body of a File (formatted and as NoFormat twin) and through Statement.Render; "+
 		"(b) every single construct under every combination of %d File settings x %d constructors; (c) valid generated programs (gogen, <= 2 deviations) with EVERY single damage (%v) at EVERY item of EVERY list-construct site. "+
 		"Oracle: no panic; File.Render nil => output parses with go/parser as a file AND equals format.Source of what an identically rebuilt File renders with NoFormat; Statement.Render nil => output parses as declarations or statements; error => the writer received nothing. "+
-		"(d) instrumented build: for the C07 recipes the formatted render under canonical map order must equal gofmt of the raw render of an identically built File under canonical, reversed and rotated map orders. distinct_nontrivial = distinct cases per outcome class; both classes (valid / error) must be populated", len(cs), len(c02Settings), len(c02Ctors), c02Damages)
+		"(e) comments of the C15 domain (texts of length <= 2 and code-like ones) at every position of the C15 hosts: formatted == gofmt(raw twin). (d) instrumented build: for the C07 recipes the formatted render under canonical map order must equal gofmt of the raw render of an identically built File under canonical, reversed and rotated map orders. distinct_nontrivial = distinct cases per outcome class; both classes (valid / error) must be populated", len(cs), len(c02Settings), len(c02Ctors), c02Damages)
 	r.Assume = []string{"documented deliberate panics are outside the alphabet (Lit of an unsupported type, a Dict next to other items in Values, nil callbacks, nil Dict keys/values)",
 		"a fragment whose text is a complete file by itself (e.g. a bare package clause) is tolerated for Statement.Render"}
 	var mu sync.Mutex
@@ -428,6 +455,46 @@ func runC02(r *ev.Recorder) {
 			}
 		}
 	})
+	// (e) comments: every text of length <= 2 over the C15 alphabet (and the longer code-like
+	// ones) at the end of every item and as an item of its own in every C15 host: formatted
+	// output == gofmt(raw output of an identically built File)
+	{
+		texts := append(c15Texts(2), "x := map[string]int{\"a\": 1}", "line one\nline two\n", "\nleading newline", "a // b", "} else {", "func f() {\n\treturn\n}", "x\ny")
+		for hi, h := range c15Hosts {
+			n := len(h.items())
+			for pos := 0; pos <= n; pos++ {
+				for _, atEnd := range []bool{false, true} {
+					if atEnd && pos == n {
+						continue
+					}
+					for _, t := range texts {
+						formatted := c15Build(hi, pos, atEnd, 0, t, false, true)
+						raw := c15Build(hi, pos, atEnd, 0, t, true, true)
+						r.Eval(1)
+						mu.Lock()
+						classes["comment-twin"]++
+						mu.Unlock()
+						desc := fmt.Sprintf("Comment(%q) in %s at %d (end of item %v)", t, h.name, pos, atEnd)
+						msg := ""
+						switch {
+						case formatted.Panic != nil || raw.Panic != nil:
+							msg = fmt.Sprintf("panic: %v %v", formatted.Panic, raw.Panic)
+						case formatted.OK() && raw.OK():
+							want, err := format.Source([]byte(raw.Out))
+							if err != nil || string(want) != formatted.Out {
+								msg = fmt.Sprintf("output differs from gofmt of the raw rendering (%v):\n--- output\n%s\n--- gofmt(raw)\n%s", err, formatted.Out, want)
+							}
+						case formatted.OK() && !raw.OK():
+							msg = "formatted render succeeded but the NoFormat twin failed"
+						}
+						if msg != "" {
+							r.Violate(ev.Violation{Signature: "c02:comment-twin:" + problemKind(msg), What: desc + ": " + jh.Short(msg, 200), Case: ev.JSON(c02Case{Kind: "twin", A: "comment", Desc: desc}), Detail: msg})
+						}
+					}
+				}
+			}
+		}
+	}
 	// (d) twins under different map iteration orders (instrumented build): the formatted render
 	// under canonical order must equal gofmt of the raw render of an identically built File
 	// under every uniform order policy
